@@ -55,6 +55,7 @@ Section ValueInd.
     | VPeriod d => HScalar (VPeriod d) eq_refl
     | VStd k a => HScalar (VStd k a) eq_refl
     | VEnum c m => HScalar (VEnum c m) eq_refl
+    | VFlag c z => HScalar (VFlag c z) eq_refl
     end.
 End ValueInd.
 
